@@ -10,8 +10,7 @@
    - render_independent render : the text written to a path depends on (configuration class, path) only -- not on the tree
      as it is (no output file is read back), not on earlier runs in the process, not on the clock.  This is the whole
      content of "byte-identical to a fresh run" beyond "every target is re-opened with mode w"; it is discharged by
-     C10 (Properties/C10.v C10_file_indep_real; instantiated below in render_independent_from_c10 up to ONE missing lemma,
-     totality of generation in C10's model) and C07 (Properties/C07.v: C07_run_env_indep_general,
+     C10 (instantiated below: render_independent_on_targets_from_c10, regen_equals_fresh_from_c10) and C07 (Properties/C07.v: C07_run_env_indep_general,
      C07_output_dir_history_irrelevant, C07_all_ambient_reads_modelled: no dependence on clock/hash seed/output directory
      history; python target only up to the findings listed there).  The C12 check masks C07's known volatile lines.
    - env_wf e : no path is its own ancestor.
@@ -28,26 +27,80 @@
    - c11_targets_distinct (Gen/RegenC11.v): C11's NoDup of the derived type targets.
    Proofs: Gen/RegenThm.v, Gen/RegenC11.v.  Statements only here. *)
 From Coq Require Import NArith List Bool.
-From Verif Require Import RegenBase Gen_Regen Regen RegenThm RegenC11 RegenC10.
+From Verif Require Import RegenBase Gen_Regen Regen RegenThm RegenC11 RegenTargets RegenC10 RegenC10Inst.
 Import ListNotations.
 Open Scope N_scope.
 
-(* Where render_independent comes from: instantiate render with the text of C10's log entry for (class, path); then the
-   premise is C10_file_indep_real (hypothesis 1, literally its statement), existence of the entry (hypothesis 2: C10's
-   GenStateThmSubset.single_run_entry for single-invocation runs, for pairs that are targets) and decidability of matching
-   (hypothesis 3, not stated in C10).  See Gen/RegenC10.v for what is still missing for a hypothesis-free instantiation. *)
-Theorem render_independent_from_c10 :
-  forall (log_of : N -> list GenState.entry) (cls_of : N -> N * GenState.tlist * list LinePPInst.pp)
-         (key_of : path -> GenState.tkey) (cid_of : Str.str -> N),
-  (forall a1 a2 e1 e2, In e1 (log_of a1) -> In e2 (log_of a2) ->
-     GenState.e_cfg e1 = GenState.e_cfg e2 -> GenState.e_tset e1 = GenState.e_tset e2 ->
-     GenState.e_pps0 e1 = GenState.e_pps0 e2 -> GenState.e_key e1 = GenState.e_key e2 ->
-     GenState.e_tmpl e1 = GenState.e_tmpl e2 /\ GenState.e_text e1 = GenState.e_text e2) ->
-  forall (gen : forall a cl p, exists e : GenState.entry, In e (log_of a) /\ matches cls_of key_of e cl p)   (* single_run_entry *)
-         (dec : forall e cl p, {matches cls_of key_of e cl p} + {~ matches cls_of key_of e cl p}),
-  render_independent (render_c10 log_of cls_of key_of cid_of gen dec).
-Proof. exact RegenC10.render_c10_independent. Qed.
-Print Assumptions render_independent_from_c10.
+(* WHERE THE CONTENT PREMISE COMES FROM.  A run of c renders only at (c_class c, p) for targets p of c, so independence ON
+   TARGETS is all the content theorems need (Gen/RegenTargets.v: *_on_targets below; render_independent implies it).  With
+   render := the text of C10's log entry for (class, path) (Gen/RegenC10.v; decidable search, proved there), independence on
+   targets follows from C10's theorems as proved in C10's files -- C10_file_indep_real and single_run_entry, with C10's own
+   premise render_pure about the template engine -- and ONE hypothesis of C12's side, ids_agree_with_c10_keys: what the
+   harness fixes when it identifies C12's opaque class/path ids with C10's objects (a run of class c_class c is one process,
+   one generator, one generate_all -- C10's single_run --, with the configuration/templates/line processors the class stands
+   for, and every target of c is the file of a type key that this run processes and resolves). *)
+Theorem render_independent_on_targets_from_c10 :
+  forall (U : GenState.universe) render10, C10.render_pure render10 ->
+  forall cfun (m_of : N -> option nat) (hist_of : N -> N -> list GenState.op)
+         (cls_of : N -> N * GenState.tlist * list LinePPInst.pp) (key_of : path -> GenState.tkey) (cid_of : Str.str -> N) (c : cfg),
+  (forall a p, In p (targets c) ->                                                                  (* ids_agree_with_c10_keys *)
+     exists cf ts pps ins ord args o,
+       hist_of a (c_class c) = GenStateThmSubset.single_run cf ts pps ins ord args /\
+       In (key_of p) ord /\ GenState.resolve_in U ins (key_of p) = Some o /\
+       cls_of (c_class c) = (GenState.ecfg cf args, ts, map GenState.pp_fresh pps)) ->
+  render_independent_on_targets (render_c10 (log_real U render10 cfun m_of hist_of) cls_of key_of cid_of) c.
+Proof. exact RegenC10Inst.render_independent_on_targets_from_c10. Qed.
+Print Assumptions render_independent_on_targets_from_c10.
+
+Theorem render_independent_gives_on_targets : forall render c, render_independent render -> render_independent_on_targets render c.
+Proof. exact RegenTargets.independent_is_on_targets. Qed.
+Print Assumptions render_independent_gives_on_targets.
+
+(* the content and success statements under independence on the targets of the configuration that runs (s is ANY tree: the one
+   left by any history of runs and crashes) *)
+Theorem regen_canonical_on_targets : forall render e, env_wf e -> forall s c p, render_independent_on_targets render c ->
+  c_dryrun c = false -> no_external (c_filepps c) = true -> c_filepps c <> [] ->
+  snd (step render e s c) = Ok -> In p (targets c) ->
+  obs (fst (step render e s c) p) = canonical render e c p.
+Proof. exact RegenTargets.regen_canonical_on_targets. Qed.
+Print Assumptions regen_canonical_on_targets.
+
+Theorem regen_equals_fresh_on_targets : forall render e, env_wf e -> forall s c p, render_independent_on_targets render c ->
+  c_dryrun c = false -> no_external (c_filepps c) = true -> c_filepps c <> [] ->
+  snd (step render e s c) = Ok -> snd (step render e empty_fs c) = Ok -> In p (targets c) ->
+  obs (fst (step render e s c) p) = obs (fst (step render e empty_fs c) p).
+Proof. exact RegenTargets.regen_equals_fresh_on_targets. Qed.
+Print Assumptions regen_equals_fresh_on_targets.
+
+Theorem regen_total_history_on_targets : forall render e, env_wf e -> forall h s0 c, render_independent_on_targets render c ->
+  chmodable e s0 -> (forall p, In p (targets c) -> ready e s0 p = true) ->
+  compatible e c c -> (forall ev, In ev h -> compatible e c (ev_cfg ev)) -> targets_plain e c ->
+  c_allow c = true -> c_dryrun c = false -> no_external (c_filepps c) = true ->
+  snd (step render e (history render e s0 h) c) = Ok.
+Proof. exact RegenTargets.regen_total_history_on_targets. Qed.
+Print Assumptions regen_total_history_on_targets.
+
+(* composed: "byte-identical to a fresh run" with NO premise about render -- C10's theorems + ids_agree_with_c10_keys *)
+Theorem regen_equals_fresh_from_c10 :
+  forall (U : GenState.universe) render10, C10.render_pure render10 ->
+  forall cfun (m_of : N -> option nat) (hist_of : N -> N -> list GenState.op)
+         (cls_of : N -> N * GenState.tlist * list LinePPInst.pp) (key_of : path -> GenState.tkey) (cid_of : Str.str -> N) (c : cfg),
+  (forall a p, In p (targets c) ->
+     exists cf ts pps ins ord args o,
+       hist_of a (c_class c) = GenStateThmSubset.single_run cf ts pps ins ord args /\
+       In (key_of p) ord /\ GenState.resolve_in U ins (key_of p) = Some o /\
+       cls_of (c_class c) = (GenState.ecfg cf args, ts, map GenState.pp_fresh pps)) ->
+  let render := render_c10 (log_real U render10 cfun m_of hist_of) cls_of key_of cid_of in
+  forall e, env_wf e -> forall s p,
+  c_dryrun c = false -> no_external (c_filepps c) = true -> c_filepps c <> [] ->
+  snd (step render e s c) = Ok -> snd (step render e empty_fs c) = Ok -> In p (targets c) ->
+  obs (fst (step render e s c) p) = obs (fst (step render e empty_fs c) p).
+Proof.
+  intros U render10 Hp cfun m_of hist_of cls_of key_of cid_of c Hids render e Hw s p.
+  apply (RegenTargets.regen_equals_fresh_on_targets render e Hw s c p).
+  exact (RegenC10Inst.render_independent_on_targets_from_c10 U render10 Hp cfun m_of hist_of cls_of key_of cid_of c Hids).
+Qed.
+Print Assumptions regen_equals_fresh_from_c10.
 
 (* After ANY history h of complete and interrupted runs from ANY start tree s0, a successful non-dry run whose file
    post-processors contain a SetFileMode (the command line always appends one: cli_setfilemode_last) leaves at every target
